@@ -73,10 +73,12 @@ def load_relational(inst):
     M.Country.objects.bulk_create([M.Country(id=r["id"], name=r["name"], code=r["code"],
                                              region_id=r["region_id"]) for r in inst["country"]])
     M.Author.objects.bulk_create([M.Author(id=r["id"], name=r["name"], age=r["age"],
-                                           country_id=r["country_id"]) for r in inst["author"]])
+                                           country_id=r["country_id"], home_id=r.get("home_id"))
+                                  for r in inst["author"]])
     M.Tag.objects.bulk_create([M.Tag(**r) for r in inst["tag"]])
     M.Post.objects.bulk_create([M.Post(id=r["id"], title=r["title"], rating=r["rating"],
-                                       author_id=r["author_id"]) for r in inst["post"]])
+                                       author_id=r["author_id"], home_id=r.get("home_id"))
+                                for r in inst["post"]])
     M.Comment.objects.bulk_create([M.Comment(id=r["id"], text=r["text"], score=r["score"],
                                              post_id=r["post_id"], author_id=r["author_id"])
                                    for r in inst["comment"]])
